@@ -139,7 +139,10 @@ func VP_C12_UpgradeBehaviour() {
 	}
 	os.WriteFile(path, append(raw0, aux...), 0600)
 	before := vpFsSnapshot(base)
-	pw := []string{"old", "bad", ""}[vpChoose("password", 3)]
+	pw := ""
+	if vpChoose("password-kind", 2) == 0 {
+		pw = vpStr("password", 3) // arbitrary: "old", "bad", "Old" ... are instances
+	}
 	ok, _, _, _ := st.Authenticate("u", pw)
 	vpSettle()
 	vpAssert("verdict", ok == (pw == "old"))
